@@ -720,8 +720,8 @@ func writeEvidence(prop, tier string, seed uint64, meta PropMeta, a *aggregate, 
 		"known_findings_hit":     a.known,
 		"technique":              meta.Technique,
 	}
-	if a.exhaustive {
-		cov["exhaustive"] = true
+	if meta.EnumTotal > 0 {
+		cov["enumerated_subspace"] = map[string]any{"cases_total": meta.EnumTotal, "cases_run": a.probes["enum_cases"], "complete": a.probes["enum_cases"] >= meta.EnumTotal}
 	}
 	ev := map[string]any{
 		"property_id": prop,
